@@ -70,11 +70,7 @@ Theorem C13_float_to_decimal_exact_when_representable : forall oc f d p s bits n
   float_to_decimal oc f d p s bits =
   (let r := signed neg (if 0 <=? e then m * 10 ^ s * 2 ^ e else rha_div (m * 10 ^ s) (2 ^ (- e))) in
    if Z.abs r <? 10 ^ p then Ok r else Err).
-Proof.
-  intros oc f d p s bits neg m e Hd Hp Hs Hdec Hm Hfit Hlo Hhi.
-  rewrite (float_to_decimal_exact_when_representable oc f d p s bits neg m e Hd Hp Hs Hdec Hm Hfit Hlo Hhi).
-  unfold float_decimal_spec. rewrite Hdec. reflexivity.
-Qed.
+Proof. exact float_to_decimal_exact_when_representable_val. Qed.
 Print Assumptions C13_float_to_decimal_exact_when_representable.
 
 (* 5b. in particular EVERY f32 bit pattern (zero, subnormals, NaN, infinities) and every scale 0..12 *)
